@@ -14,6 +14,16 @@ CLAIMED = {
   note="Trusts the reference model checks/c03_model.py (textbook definitions) and CPython's rule that an address is re-issued only after its owner died; terms <=25 nodes.",
   technique="deterministic simulation: simulated allocator (address re-use faults) + heap-machine op schedules + reference-model and finite-model oracles",
   ref="DESIGN.md §4 C03"),
+ 'C15': dict(
+  text=("Seeded deterministic simulation of the solver's decision / propagation / resolution schedule: the order in which "
+        "prover/sat.py iterates its sets of variable names is fixed by the world's PYTHONHASHSEED and simulator-chosen names "
+        "(searched to realise a PRNG-drawn decision order for <=6 variables); non-termination is decided by a deterministic "
+        "event budget on the solver's debug seam and a sys.settrace line budget; verdicts are compared with exhaustive "
+        "search, assignments and resolution traces are re-checked independently, Tseitin encodings go through the kernel "
+        "checker and a truth table. Thorough adds the systematic sweep over <=3 variables / <=4 clauses x 6 decision orders."),
+  note="Trusts brute force / trace replay in checks/c15.py and kernel check_proof; CNFs <=12 variables / <=60 clauses; zchaff wrapper and proofrec not run.",
+  technique="deterministic simulation: hash-seed worlds + chosen decision orders + step-budget termination oracle + brute-force/trace-replay oracles",
+  ref="DESIGN.md §4 C15"),
  'C17': dict(
   text=("Seeded deterministic simulation of delivery histories (order, duplication, reversed orientation, "
         "already-entailed merges, interleaved add/test/explain) against prover/congc.py, real code, with a naive "
@@ -39,7 +49,7 @@ NA = {
  'C19': "numeric value before/after a rule application; input-only; the timer/thread code in integral/slagle.py is not part of the property",
  'C20': "functions of program, annotations and state; input-only",
 }
-PENDING = {k: 'not yet claimed: check under construction in this build (DESIGN.md §4)' for k in ('C07','C12','C13','C14','C15')}
+PENDING = {k: 'not yet claimed: check under construction in this build (DESIGN.md §4)' for k in ('C07','C12','C13','C14')}
 
 def main():
     checks = []
